@@ -106,6 +106,11 @@ TCloseDone ==
     /\ Is("closeDone") /\ Adv /\ KeepX
     /\ cpc[E] \in {"quitClosed", "finTried"}
     /\ ~sAlive[E] /\ ~rAlive[E]
+    \* PeerLearns, the sender's half: with a transport that takes packets,
+    \* a Close - the application's or the connection's own, after a keepalive
+    \* timeout - of an endpoint that has not read the peer's FIN has put a
+    \* FIN on the wire
+    /\ (netCond \in {"ok", "blackhole"} /\ ~remoteClosed[E]) => finSent[E]
     /\ cpc' = [cpc EXCEPT ![E] = "done"]
     /\ ctxDone' = [ctxDone EXCEPT ![E] = TRUE]
     /\ pingT' = [pingT EXCEPT ![E] = FALSE]
@@ -149,6 +154,11 @@ TPeerCheck ==
           /\ Closed(E)
           /\ ~sendB[E] /\ ~recvB[E]
 
+\* the harness states that an endpoint closed the connection by itself (no
+\* Close call): it is closed indeed
+TSelfClosed == /\ Is("selfClosed") /\ Adv /\ KeepX /\ UNCHANGED vars
+               /\ Closed(E)
+
 \* NoLeak and BlockedCallersWake at the end of the run
 TInventory ==
     /\ Is("inventory") /\ Adv /\ KeepX /\ UNCHANGED vars
@@ -168,7 +178,7 @@ TAbortInventory ==
 
 Handled == {"reset", "abortInventory", "netAtClose", "blockedAtClose", "closeCall", "closeQuit",
             "fin", "sExit", "rExit", "closeDone", "closeRet", "sendRet",
-            "recvRet", "postSend", "postRecv", "peerCheck", "inventory",
+            "recvRet", "postSend", "postRecv", "peerCheck", "inventory", "selfClosed",
             "closeStuck"}   \* closeStuck: no action explains a Close call
                             \* that does not return
 
@@ -180,7 +190,7 @@ TSkip == /\ l <= Len(Trace)
 TraceNext ==
     \/ TReset \/ TNet \/ TBlocked \/ TCloseCall \/ TCloseQuit \/ TFinTx
     \/ TFinRx \/ TSExit \/ TRExit \/ TCloseDone \/ TCloseRet \/ TSendRet
-    \/ TRecvRet \/ TPost \/ TPeerCheck \/ TInventory \/ TAbortInventory \/ TSkip
+    \/ TRecvRet \/ TPost \/ TPeerCheck \/ TSelfClosed \/ TInventory \/ TAbortInventory \/ TSkip
 
 TraceSpec == TraceInit /\ [][TraceNext]_tvars
 
